@@ -26,7 +26,10 @@ CURATED = ["10.0.0.2 ;id", "10.0.0.2;id", "10.0.0.2 `id`", "10.0.0.2 $(id)", "10
            "fd00:dead:beef::2", "::ffff:10.0.0.2", "::1", "::", "fe80::1%dns0", "[::1]", "2001:db8::1", "::10.0.0.2", "1::",
            "10.0.0.2/24", "10.0.0.2%1", "0xa000002", "012.0.0.2", "10.2", "10.0.2", "1.2.3.4:53", "١٠.٠.٠.٢".encode("utf-8").decode("latin-1")]
 NUMS = ["1130", "27", "0", "-1", "33", "99999999999", "1130;id", "27 ;id", "1e3", "0x10", " 27", "27 ", "4294967295",
-        "2147483648", "+27", "27\n", "$(id)", "`id`"]
+        "2147483648", "+27", "27\n", "$(id)", "`id`",
+        # values that are in range only after a narrowing conversion (16 / 8 / 32 bits) or a sign change
+        "66736", "132272", "-64336", "67036", "65737", "4294968426", "-4294966166", "283", "1386", "65563", "4294967323",
+        "-4294967269", "-229", "01130", "1130.0", "1130e0", "0027"]
 
 
 def payloads(tier, seed):
